@@ -406,7 +406,114 @@ func (sc *scenario) keyOfType(t reflect.Type, order []int) int {
 
 // ---------------------------------------------------------------- options
 
+// packMode: in one scenario out of three, runs of plain value options travel through a value set (NewValueSet,
+// FromSignature, Args) instead of being given one by one
+func (sc *scenario) packMode() bool {
+	n := 0
+	for _, o := range sc.Opts {
+		n += o.Vid
+	}
+	return n%3 == 0
+}
+
+func plainValueOpt(o optSpecC) bool {
+	switch o.Kind {
+	case "named", "namedsub", "typed", "typedsub":
+		return len(o.Pre) == 0 && len(o.Post) == 0
+	}
+	return false
+}
+
+// packed renders the options through a value set; false when the set cannot be built (names or types twice,
+// names that are no identifiers), in which case the options are given one by one
+func (sc *scenario) packed(os []optSpecC) (args []am.Arg, ok bool) {
+	defer func() {
+		if recover() != nil {
+			args, ok = nil, false
+		}
+	}()
+	var vals []am.Value
+	var rvs []reflect.Value
+	for _, o := range os {
+		rv := mkValue(o.Ty, o.Vid, -1)
+		v := am.Value{Type: rv.Type(), Subtype: o.Sub}
+		if o.Kind == "named" || o.Kind == "namedsub" {
+			v.Name = o.Name
+		}
+		if o.Kind == "named" || o.Kind == "typed" {
+			v.Subtype = ""
+		}
+		vals = append(vals, v)
+		rvs = append(rvs, rv)
+	}
+	set, err := am.NewValueSet(vals)
+	if err != nil || set == nil {
+		return nil, false
+	}
+	sig := set.Signature()
+	if len(sig) != 1 || sig[0].Kind() != reflect.Struct || sig[0].NumField() != len(rvs)+1 {
+		return nil, false
+	}
+	st := reflect.New(sig[0]).Elem()
+	for i, rv := range rvs {
+		st.Field(i + 1).Set(rv)
+	}
+	if err := set.FromSignature([]reflect.Value{st}); err != nil {
+		return nil, false
+	}
+	as := set.Args()
+	if len(as) != len(os) {
+		return nil, false
+	}
+	return as, true
+}
+
+// argsOf renders the options with the given indices, in order.
+func (sc *scenario) argsOf(idx []int) []am.Arg {
+	pack := sc.packMode()
+	var args []am.Arg
+	for k := 0; k < len(idx); {
+		if pack && plainValueOpt(sc.Opts[idx[k]]) {
+			j := k
+			var run []optSpecC
+			for j < len(idx) && plainValueOpt(sc.Opts[idx[j]]) {
+				run = append(run, sc.Opts[idx[j]])
+				j++
+			}
+			if len(run) >= 2 {
+				if as, ok := sc.packed(run); ok {
+					args = append(args, as...)
+					k = j
+					continue
+				}
+			}
+		}
+		args = append(args, sc.mkArg(sc.Opts[idx[k]]))
+		k++
+	}
+	return args
+}
+
 func (sc *scenario) mkArg(o optSpecC) am.Arg {
+	// the same option has several spellings in the API (a name or subtype left empty, a Value's own Arg): which one
+	// is used depends on the value id only, so that rebuilding the options gives the same calls
+	if len(o.Pre) == 0 && len(o.Post) == 0 && o.Vid > 0 {
+		rv := mkValue(o.Ty, o.Vid, -1)
+		switch {
+		case o.Kind == "named" && o.Vid%5 == 3:
+			return (&am.Value{Name: o.Name, Type: rv.Type(), Value: rv}).Arg()
+		case o.Kind == "namedsub" && o.Vid%5 == 4:
+			return (&am.Value{Name: o.Name, Type: rv.Type(), Subtype: o.Sub, Value: rv}).Arg()
+		case o.Kind == "typed" && o.Vid%5 == 2:
+			return am.Named("", rv.Interface())
+		case o.Kind == "typed" && o.Vid%5 == 4:
+			return am.NamedSubtype("", rv.Interface(), "")
+		case o.Kind == "typedsub" && o.Vid%4 == 1:
+			return am.NamedSubtype("", rv.Interface(), o.Sub)
+		case o.Kind == "typedsub" && o.Vid%4 == 2:
+			return (&am.Value{Type: rv.Type(), Subtype: o.Sub, Value: rv}).Arg()
+		}
+	}
 	switch o.Kind {
 	case "named":
 		return am.Named(o.Name, mkValue(o.Ty, o.Vid, -1).Interface())
@@ -832,6 +939,10 @@ func (sc *scenario) classifyErr(err error) string {
 		if e0 == nil {
 			return "e0 typednil"
 		}
+		if d, ok := err.(*E0); !ok || d != e0 {
+			// the converter's error value must come back as it is, not wrapped
+			return fmt.Sprintf("other:wrapped-e0-%d", e0.ID)
+		}
 		return fmt.Sprintf("e0 %d", e0.ID)
 	case strings.Contains(err.Error(), "generator failed"):
 		return "generr"
@@ -877,12 +988,14 @@ func (sc *scenario) callWith(fid int, omit map[int]bool) []string {
 	target := sc.Funcs[fid]
 	var args []am.Arg
 	args = append(args, am.Logger(capLogger{sc}))
-	for i, o := range sc.Opts {
+	var idx []int
+	for i := range sc.Opts {
 		if i < sc.Defaults || omit[i] {
 			continue
 		}
-		args = append(args, sc.mkArg(o))
+		idx = append(idx, i)
 	}
+	args = append(args, sc.argsOf(idx)...)
 	am.VerifSetPopHook(func(h interface{}) { sc.pops = append(sc.pops, sc.hashName(h)) })
 	defer am.VerifSetPopHook(nil)
 	var res am.Result
